@@ -498,6 +498,16 @@ class Walker:
     def resolve_helper(self, st, call, skip=()):
         """Private helper extracted from the analysed code: self._m(...),
         Class._m(...), or a module-level _f(...) of the package."""
+        if isinstance(call.func, ast.Name):
+            # a local bound to a method of self (notify = self._m): the call
+            # goes to that method
+            sv = st.frame.env.get(call.func.id)
+            if sv is not None and isinstance(getattr(sv, 'node', None),
+                                             ast.Attribute) and isinstance(
+                    sv.node.value, ast.Name) and sv.node.value.id == 'self':
+                call2 = copy.copy(call)
+                call2.func = sv.node
+                return self.resolve_helper(st, call2, skip)
         r = self.default_resolve(st, call)
         if r is None:
             r = self.resolve_module_func(st, call)
